@@ -13,6 +13,12 @@ func replayModel(d *Driver, q *Query) (bool, string) {
 	if q.Solver == "exhaustive" {
 		return true, "failing input (decided on the real code): " + q.Obligation + ": " + q.Model
 	}
+	if q.Kind == "bounded" && q.Result == "sat" {
+		return true, "failing input (the real functions were run on it): " + q.Model
+	}
+	if q.Kind == "bounded" {
+		return false, q.Model
+	}
 	if q.Kind == "lemma" && q.Result == "sat" {
 		return false, "solver model: " + q.Model
 	}
